@@ -86,6 +86,11 @@ struct _concrete_impl {
       return self.value;
     }
 
+    friend const Concrete&
+    tag_invoke(tag_t<detail::get_wrapped_object>, const base& self) noexcept {
+      return self.value;
+    }
+
     UNIFEX_NO_UNIQUE_ADDRESS Concrete value;
     UNIFEX_NO_UNIQUE_ADDRESS allocator_type alloc;
   };
